@@ -1,6 +1,6 @@
 """C01 - the checksum-database client never returns or caches unauthenticated data."""
 import sumdbmc
-from vcore import finish, replay_one, replay_run, record_and_monitor
+from vcore import Infra, finish, replay_one, replay_run, record_and_monitor
 
 RULE = ("E1: SumdbClient - the client as a state machine (Lookup, record cache, ReadCache/ReadRemote, ParseRecord, mergeLatest with the "
         "configuration compare-and-swap loop, checkRecord, per-tile fetch/authenticate/save) against an adversary that corrupts up to "
@@ -9,7 +9,9 @@ RULE = ("E1: SumdbClient - the client as a state machine (Lookup, record cache, 
         "restarts, stored heads older/equal/ahead, growing server: invariants ResultAuthentic, CacheAuthentic, ConfigAuthentic, "
         "HonestLive, ConfigChain, MemChain. E2: every complete behaviour is replayed into the real sumdb.Client against an "
         "independently built world (real SHA-256 tiles, Ed25519-signed heads), with ground-truth observers on every ClientOps call. "
-        "E3: random multi-fault runs on trees up to 300/2000 records and heights 1-8, validated by SumdbMonitor. "
+        "Honest liveness also with other honest processes winning the compare-and-swap of the configuration three times in a row "
+        "(EnvStore; schedules found exhaustively, replayed through the gate scheduler) and on a log of 2004-2006 records at height 1 (tiles "
+        "number 999-1001). E3: random multi-fault runs on trees up to 300/2000 records and heights 1-8, validated by SumdbMonitor. "
         "Non-trivial = behaviour with at least one corrupted response.")
 
 
@@ -17,6 +19,13 @@ def run(ctx):
     ctx.build_harness()
     cfgs = sumdbmc.c01_configs(ctx.tier)
     out, _ = sumdbmc.run_configs(ctx, cfgs, workers_each=2, parallel=8, timeout=3000, label="C01")
+    # honest server, honest cache, and other honest processes that win the compare-and-swap of the configuration three times in a
+    # row (EnvStore): schedules found exhaustively, replayed through the gate scheduler - the lookup still succeeds
+    out2, _ = sumdbmc.run_configs(ctx, sumdbmc.env_writer_configs(ctx.tier), workers_each=4, parallel=2, timeout=3000, label="C01env")
+    if sum(1 for l in open(out2) if l.startswith('"')) == 0:
+        raise Infra("the search for three lost compare-and-swaps produced no schedule")
+    with open(out, "a") as fo:
+        fo.writelines(l for l in open(out2) if l.startswith('"'))
     rep = ctx.vh(["replay", "client", out])
     rep["violations"] = [v for v in rep.get("violations", []) if v.get("sig", "").startswith(("c01:", "behaviour:"))]
     ctx.add_report(rep, floor=2000 if ctx.quick() else 20000, engine="C01:replay")
